@@ -344,7 +344,7 @@ func c02Getters(c *wk.Ctx, r *rand.Rand, e gen.Env, idx int64) {
 		g.eq("HeaderLen", p.HeaderLen(), 8)
 		g.eq("Payload", p.Payload(), pl)
 	case 3: // TCP
-		h := refdec.TCPHdr{Src: rw(r), Dst: rw(r), Seq: rd(r), Ack: rd(r), Flags: uint16(r.Intn(512)), Window: rw(r), Csum: rw(r), Urgent: rw(r), Options: make([]byte, 4*r.Intn(11))}
+		h := refdec.TCPHdr{Src: rw(r), Dst: rw(r), Seq: rd(r), Ack: rd(r), Flags: uint16(r.Intn(4096)), Window: rw(r), Csum: rw(r), Urgent: rw(r), Options: make([]byte, 4*r.Intn(11))}
 		r.Read(h.Options)
 		pl := gen.RandBytes(r, r.Intn(60))
 		b := refdec.TCP(h, pl)
